@@ -785,6 +785,29 @@ func (e *Env) evalCall(x *ECall) Val {
 		larr := u.get(e.cur, lk, so)
 		darr := u.get(e.cur, "DU:"+lk, ArraySort(SInt, SBool))
 		return spec(Term{fmt.Sprintf("(forall ((lr Int)) (! (=> (not (= (select %s lr) 0)) (select %s lr)) :pattern ((select %s lr))))", larr.S, darr.S, larr.S), SBool})
+	case "onlyfresh":
+		// onlyfresh(): every heap object that existed when the unit was entered is unchanged
+		// (only objects allocated by this call have been written)
+		var cs []Term
+		top0 := u.top0
+		for _, k := range sortedKeys(e.cur.vars) {
+			pfx := ""
+			if i := strings.Index(k, ":"); i >= 0 {
+				pfx = k[:i+1]
+			}
+			switch pfx {
+			case "H:", "C:", "MD:", "MV:":
+			default:
+				continue
+			}
+			cur := e.cur.vars[k]
+			ini := u.get(e.old, k, u.varSort[k])
+			if cur.S == ini.S || !keySortIsInt(cur.Sort) {
+				continue
+			}
+			cs = append(cs, Term{fmt.Sprintf("(forall ((of_r Int)) (! (=> (and (< 0 of_r) (< of_r %s)) (= (select %s of_r) (select %s of_r))) :pattern ((select %s of_r))))", top0.S, cur.S, ini.S, cur.S), SBool})
+		}
+		return spec(And(cs...))
 	case "nolocks":
 		// nolocks(Type.mutex): this call chain holds no mutex of that kind
 		sel, ok := x.Args[0].(*ESel)
